@@ -7,23 +7,23 @@
 #include <thread>
 namespace vr {
 namespace {
-constexpr int NWORKERS = 3;
-constexpr int NSLOTS = 4;   // 0,1: static buffers (address reuse); 2,3: heap
+constexpr int NWORKERS = 4;  // the "main" thread of a history is a worker as well: no thread-local state may survive from one case to the next
+constexpr int NSLOTS = 4;    // 0,1: static buffers (address reuse); 2,3: heap
 
 struct Worker {
   std::thread th;
   std::mutex mu;
   std::condition_variable cv;
   std::function<void()> job;
-  bool has_job = false, done = false;
+  bool has_job = false, done = false, quit = false;
 };
-Worker g_workers[NWORKERS];
-bool g_started = false;
+std::unique_ptr<Worker> g_workers[NWORKERS];
 
 void worker_loop(Worker *w) {
   for (;;) {
     std::unique_lock<std::mutex> l(w->mu);
-    w->cv.wait(l, [&] { return w->has_job; });
+    w->cv.wait(l, [&] { return w->has_job || w->quit; });
+    if (w->quit) return;
     auto job = std::move(w->job);
     l.unlock();
     job();
@@ -34,19 +34,29 @@ void worker_loop(Worker *w) {
   }
 }
 
+// the threads of one history live from its first use until the next "reset", i.e. they outlive every engine of the history
 void run_on(int thread, const std::function<void()> &f) {
-  if (thread <= 0) { f(); return; }
-  if (!g_started) {
-    for (auto &w : g_workers) { w.th = std::thread(worker_loop, &w); w.th.detach(); }
-    g_started = true;
+  auto &slot = g_workers[((thread % NWORKERS) + NWORKERS) % NWORKERS];
+  if (!slot) {
+    slot = std::make_unique<Worker>();
+    slot->th = std::thread(worker_loop, slot.get());
   }
-  Worker &w = g_workers[(thread - 1) % NWORKERS];
+  Worker &w = *slot;
   std::unique_lock<std::mutex> l(w.mu);
   w.job = f;
   w.has_job = true;
   w.done = false;
   w.cv.notify_all();
   w.cv.wait(l, [&] { return w.done; });
+}
+
+void end_threads() {
+  for (auto &w : g_workers) {
+    if (!w) continue;
+    { std::unique_lock<std::mutex> l(w->mu); w->quit = true; w->cv.notify_all(); }
+    w->th.join();
+    w.reset();
+  }
 }
 
 // three unrelated C++ types known to every engine; conversions between them are added per engine instance ("conv" op)
@@ -93,7 +103,9 @@ static mj::Value cmd_c14(const mj::Value &rq) {
     return r;
   }
   if (op == "reset") {
+    // engines first (on the requesting thread), then the threads: the next history starts with fresh threads
     for (int s = 0; s < NSLOTS; ++s) destroy(s);
+    end_threads();
     return r;
   }
   if (op == "eval") {
